@@ -50,6 +50,8 @@ class Ty:
 BOOL = Ty("bool")
 UNIT = Ty("unit")
 LIT = Ty("lit")          # an unsuffixed integer literal whose type is still open
+STR = Ty("str")          # `&str` / `String`: the list of its chars (byte offsets are computed from UTF-8 lengths)
+CHAR = Ty("char")
 
 
 class Translator:
@@ -86,6 +88,12 @@ class Translator:
                 return Ty("int", n)
             if n == "bool":
                 return BOOL
+            if n in ("str", "String"):
+                return STR
+            if n == "char":
+                return CHAR
+            if n == "Option" and t[2]:
+                return Ty("option", self.ty(t[2][0][1], generics))
             if n == "Vec" and t[2]:
                 return Ty("list", self.ty(t[2][0][1], generics), None)
             if n in ("FuncPtrInternal", "c_void"):
@@ -118,6 +126,12 @@ class Translator:
             return "(List %s)" % self.lean_ty(t.a)
         if t.kind == "unit":
             return "Unit"
+        if t.kind == "str":
+            return "(List Char)"
+        if t.kind == "char":
+            return "Char"
+        if t.kind == "option":
+            return "(Option %s)" % self.lean_ty(t.a)
         if t.kind == "tuple":
             return "(" + " × ".join(self.lean_ty(x) for x in t.a) + ")"
         raise Unsupported("lean type of " + repr(t))
@@ -171,6 +185,30 @@ class Ctx:
         self.emit(f"let {name} := {term}")
 
 
+def char_lit(cp):
+    if 32 <= cp < 127 and chr(cp) not in "'\\":
+        return f"'{chr(cp)}'"
+    return f"(Char.ofNat {cp})"
+
+
+def str_lit(body):
+    """a Rust string literal body (escapes as written) as a Lean list of chars"""
+    out = []
+    i = 0
+    esc = {"n": 10, "r": 13, "t": 9, "\\": 92, "0": 0, "'": 39, '"': 34}
+    while i < len(body):
+        c = body[i]
+        if c == "\\":
+            if i + 1 < len(body) and body[i + 1] in esc:
+                out.append(esc[body[i + 1]])
+                i += 2
+                continue
+            raise Unsupported("string escape")
+        out.append(ord(c))
+        i += 1
+    return "([" + ", ".join(char_lit(x) for x in out) + "] : List Char)"
+
+
 def lit_str(v, signed):
     if signed:
         return f"({v} : Int)" if v >= 0 else f"(-{-v} : Int)"
@@ -217,6 +255,12 @@ class FnCompiler:
             return (lit_str(e[1], self.is_signed(t)), t)
         if k == "bool":
             return ("true" if e[1] else "false", BOOL)
+        if k == "char":
+            return (char_lit(e[1]), CHAR)
+        if k == "str":
+            return (str_lit(e[1]), STR)
+        if k == "match":
+            return self.expr(self.desugar_match(e, cx), cx, want)
         if k == "path":
             return self.path(e, cx, want)
         if k == "unary":
@@ -473,6 +517,15 @@ class FnCompiler:
 
     def index(self, e, cx):
         c, t = self.expr(e[1], cx)
+        if t.kind == "str" and e[2][0] == "range":
+            r = e[2]
+            lo = self.typed(r[1], cx, Ty("int", "usize"))[0] if r[1] is not None else "0"
+            if r[2] is None:
+                return (cx.bind(f"Rt.strFrom {c} {lo}"), STR)
+            hi = self.typed(r[2], cx, Ty("int", "usize"))[0]
+            if r[3]:
+                hi = f"({hi} + 1)"
+            return (cx.bind(f"Rt.strSlice {c} {lo} {hi}"), STR)
         if t.kind != "list":
             raise Unsupported("index into " + repr(t))
         if e[2][0] == "range":
@@ -708,6 +761,36 @@ class FnCompiler:
             if name == "abs" and s:
                 return (cx.bind(f"Rt.sabs {bits} mode {c}"), t)
             raise Unsupported("integer method " + name)
+        if t.kind == "str":
+            if name in ("trim", "trim_start", "trim_end"):
+                f = {"trim": "strTrim", "trim_start": "strTrimStart", "trim_end": "strTrimEnd"}[name]
+                return (f"(Rt.{f} {c})", STR)
+            if name in ("find", "rfind") and len(args) == 1:
+                a, at = self.expr(args[0], cx)
+                if at == CHAR:
+                    return (f"(Rt.{'strFind' if name == 'find' else 'strRfind'} {c} {a})", Ty("option", Ty("int", "usize")))
+                raise Unsupported("str::find with a non-char pattern")
+            if name in ("starts_with", "ends_with", "contains") and len(args) == 1:
+                a, at = self.expr(args[0], cx)
+                f = {"starts_with": "strStartsWith", "ends_with": "strEndsWith", "contains": "strContains"}[name]
+                if at == STR:
+                    return (f"(Rt.{f} {c} {a})", BOOL)
+                if at == CHAR:
+                    return (f"(Rt.{f} {c} [{a}])", BOOL)
+                raise Unsupported("str pattern")
+            if name == "len":
+                return (f"(Rt.strLen {c})", Ty("int", "usize"))
+            if name == "is_empty":
+                return (f"(List.isEmpty {c})", BOOL)
+            if name in ("as_str", "to_string", "to_owned", "as_ref"):
+                return (c, STR)
+            raise Unsupported("str method " + name)
+        if t.kind == "option":
+            if name == "is_some":
+                return (f"(Option.isSome {c})", BOOL)
+            if name == "is_none":
+                return (f"(Option.isNone {c})", BOOL)
+            raise Unsupported("option method " + name)
         if t.kind == "list":
             if name == "len":
                 return (f"(List.length {c})", Ty("int", "usize"))
@@ -848,6 +931,14 @@ class FnCompiler:
                 walk_e(e[1], decl)
                 walk_e(e[2], decl)
                 walk_e(e[3], decl)
+            elif k == "match":
+                walk_e(e[1], decl)
+                for _, g, body in e[2]:
+                    walk_e(body, decl)
+            elif k == "iflet":
+                walk_e(e[2], decl)
+                walk_e(e[3], decl)
+                walk_e(e[4], decl)
             elif k in ("while",):
                 walk_e(e[1], decl)
                 walk_e(e[2], decl)
@@ -982,9 +1073,22 @@ class FnCompiler:
             if s[0] == "let":
                 self.let_stmt(s, cx)
                 continue
+            if s[0] == "letelse":
+                # let Some(x) = e else { diverges };  rest
+                if not self.expr_diverges(s[4]):
+                    raise Unsupported("let-else whose else block does not diverge")
+                return self.iflet_final(s[1], s[3], [], self.enabled(s[4]), sts[idx + 1:], cx)
             e = s[1]
+            if e[0] == "match":
+                e = self.desugar_match(e, cx)
+                s = ("expr", e, s[2], s[3])
             rest = sts[idx + 1:]
             last = not any(rsparse.attrs_enabled(r[-1], self.tr.cfg) for r in rest)
+            if e[0] == "iflet":
+                els = [] if e[4] is None else ([("expr", e[4], False, [])] if e[4][0] in ("if", "iflet") else self.enabled(e[4]))
+                return self.iflet_final(e[1], e[2], self.enabled(e[3]), els, rest, cx)
+            if e[0] == "for" and self.contains_return(e):
+                return self.for_final(e, rest, cx)
             if e[0] == "return":
                 if e[1] is None:
                     cx.emit(self.ret("()"))
@@ -1069,6 +1173,157 @@ class FnCompiler:
         v = self.tr.fresh("v")
         cx.emit(f"match {ro} with\n| some {v} => {self.ret(v)}\n| none => (do\n{self.render(rcx.lines, 2)})")
 
+    # ------------------------------------------------------------------ match / if let / let else
+    def desugar_match(self, e, cx):
+        """`match x { lit => a, lit | lit => b, _ => c }` as an if-chain; `match o { Some(v) => a, None => b }`
+        as an `if let`.  Patterns that bind (other than through Some) are outside the subset."""
+        scrut, arms = e[1], e[2]
+        if any(g is not None for _, g, _ in arms):
+            raise Unsupported("match guard")
+        blk = lambda b: b if b[0] == "block" else ("block", [], b, [])
+        pats = [p for p, _, _ in arms]
+        if any(p[0] == "pctor" for p in pats):
+            some = [a for a in arms if a[0][0] == "pctor" and a[0][1][-1] == "Some"]
+            none = [a for a in arms if (a[0][0] == "pctor" and a[0][1][-1] == "None") or a[0][0] == "pwild"]
+            if len(arms) != 2 or len(some) != 1 or len(none) != 1:
+                raise Unsupported("match on constructors")
+            return ("iflet", some[0][0], scrut, blk(some[0][2]), blk(none[0][2]))
+
+        def cond(p):
+            if p[0] == "plit":
+                return ("binary", "==", scrut, p[1])
+            if p[0] == "por":
+                c = cond(p[1][0])
+                for q in p[1][1:]:
+                    c = ("binary", "||", c, cond(q))
+                return c
+            raise Unsupported("match pattern " + p[0])
+        if scrut[0] != "path":
+            raise Unsupported("match on a non-variable")
+        if not arms or arms[-1][0][0] != "pwild":
+            raise Unsupported("match without a final wildcard arm")
+        out = blk(arms[-1][2])
+        for p, _, body in reversed(arms[:-1]):
+            out = ("if", cond(p), blk(body), out)
+        return out
+
+    def option_pattern(self, pat, t):
+        """`Some(x)` against an option type: the bound name (or None for `Some(_)`)"""
+        if t.kind != "option" or pat[0] != "pctor" or pat[1][-1] != "Some" or len(pat[2]) != 1:
+            raise Unsupported("pattern (only Some(x) on an Option is in the subset)")
+        q = pat[2][0]
+        if q[0] == "pwild":
+            return None
+        if q[0] == "pid":
+            return q[1]
+        raise Unsupported("nested pattern")
+
+    def iflet_final(self, pat, scrut, then_sts, else_sts, rest, cx):
+        c, t = self.expr(scrut, cx)
+        name = self.option_pattern(pat, t)
+        tcx = cx.child()
+        ln = lean_ident(name) if name else "_"
+        if name:
+            tcx.env[name] = (ln, t.a)
+        self.final(then_sts + rest, tcx)
+        ecx = cx.child()
+        self.final(else_sts + rest, ecx)
+        cx.emit(f"match {c} with\n| some {ln} => (do\n{self.render(tcx.lines, 2)})\n| none => (do\n{self.render(ecx.lines, 2)})")
+
+    def iter_list(self, it, cx):
+        """the list a `for` loop runs over: (lean term, element type)"""
+        if it[0] == "range" or (it[0] == "paren" and it[1][0] == "range"):
+            r = it if it[0] == "range" else it[1]
+            (lo, hi, inc), rt = self.expr(r, cx)
+            if self.is_signed(rt.a):
+                raise Unsupported("signed range loop")
+            hi2 = f"({hi} + 1)" if inc else hi
+            return (f"(List.range' {lo} ({hi2} - {lo}))", rt.a)
+        enum = False
+        base = it
+        if base[0] == "method" and base[2] == "enumerate":
+            enum = True
+            base = base[1]
+        if base[0] == "method" and base[2] in ("char_indices", "chars", "bytes"):
+            c, t = self.expr(base[1], cx)
+            if t != STR:
+                raise Unsupported(base[2] + " on non-str")
+            if base[2] == "char_indices":
+                lst, et = f"(Rt.charIndices {c})", Ty("tuple", (Ty("int", "usize"), CHAR))
+            elif base[2] == "chars":
+                lst, et = c, CHAR
+            else:
+                raise Unsupported("bytes()")
+        else:
+            while base[0] == "method" and base[2] in ("iter", "into_iter", "copied", "cloned"):
+                base = base[1]
+            lst, lt = self.expr(base, cx)
+            if lt.kind != "list":
+                raise Unsupported("for over " + repr(lt))
+            et = lt.a
+        if enum:
+            lst = f"((List.zipIdx {lst}).map (fun p => (p.2, p.1)))"
+            et = Ty("tuple", (Ty("int", "usize"), et))
+        return (lst, et)
+
+    def bind_for_pattern(self, pat, et, env):
+        """pattern of a `for`: returns the Lean pattern text and adds the names to env"""
+        if pat[0] in ("pid", "pderef"):
+            n = pat_names(pat)[0]
+            ln = lean_ident(n) + "_it"
+            env[n] = (ln, et)
+            return ln
+        if pat[0] == "pwild":
+            return "_"
+        if pat[0] == "ptuple" and et.kind == "tuple" and len(pat[1]) == len(et.a):
+            return "(" + ", ".join(self.bind_for_pattern(q, t, env) for q, t in zip(pat[1], et.a)) + ")"
+        raise Unsupported("for pattern")
+
+    def for_final(self, e, rest, cx):
+        """a `for` loop whose body may `return`: a structurally recursive helper over the list"""
+        pat, it, body = e[1], e[2], e[3]
+        if iter_is_mut(it):
+            raise Unsupported("iter_mut loop with return")
+        bst = self.enabled(body)
+        declared = set(pat_names(pat))
+        mv = [n for n in self.assigned_vars(bst, None, declared) if n in cx.env]
+        lst, et = self.iter_list(it, cx)
+        used = names_used(e)
+        caps = [n for n in cx.env if n in used and n not in mv and n not in declared and not isinstance(cx.env[n][0], tuple)
+                and cx.env[n][1].kind != "range" and IDENT_RE.match(cx.env[n][0])]
+        self.nloops += 1
+        lname = f"{self.lean_name}_for{self.nloops}"
+        if mv:
+            tup = "(" + ", ".join(cx.env[n][0] for n in mv) + ")" if len(mv) != 1 else cx.env[mv[0]][0]
+            sty = "(" + " × ".join(self.tr.lean_ty(cx.env[n][1]) for n in mv) + ")" if len(mv) != 1 else self.tr.lean_ty(cx.env[mv[0]][1])
+        else:
+            tup, sty = "()", "Unit"
+        capsig = " ".join(f"({cx.env[n][0]} : {self.tr.lean_ty(cx.env[n][1])})" for n in caps)
+        capargs = " ".join(cx.env[n][0] for n in caps)
+        mon = "Rt.M" if self.effectful else "Res"
+        rty = self.tr.lean_ty(self.ret_ty)
+        sub = cx.child()
+        lpat = self.bind_for_pattern(pat, et, sub.env)
+        xs = self.tr.fresh("xs")
+        old_ret, old_fall = self.ret, self.fall
+        self.ret = lambda c: f"pure (some {c}, {tup})"
+        self.fall = lambda: f"{lname} mode {capargs} {xs} {tup}"
+        try:
+            self.final(bst, sub)
+        finally:
+            self.ret, self.fall = old_ret, old_fall
+        hdr = [f"let {tup} := st"] if mv else []
+        text = (f"def {lname} (mode : Mode) {capsig} : List {self.tr.lean_ty(et)} → {sty} → {mon} (Option {rty} × {sty})\n"
+                f"  | [], st => pure (none, st)\n"
+                f"  | {lpat} :: {xs}, st => do\n" + self.render(hdr + sub.lines, 2) + "\n")
+        self.tr.aux.append(text)
+        ro = self.tr.fresh("ret")
+        cx.emit(f"let ({ro}, {tup if mv else '_'}) ← {lname} mode {capargs} {lst} {tup}")
+        rcx = cx.child()
+        self.final(rest, rcx)
+        v = self.tr.fresh("v")
+        cx.emit(f"match {ro} with\n| some {v} => {self.ret(v)}\n| none => (do\n{self.render(rcx.lines, 2)})")
+
     def diverging_block(self, b, cx):
         """compile a block that ends in return/panic; returns its final line"""
         if b[0] == "unsafe":
@@ -1133,6 +1388,10 @@ class FnCompiler:
             return
         if k == "if":
             return self.if_stmt(e, cx)
+        if k == "match":
+            return self.stmt_expr(self.desugar_match(e, cx), cx)
+        if k == "iflet":
+            return self.iflet_stmt(e, cx)
         if k == "for":
             return self.for_stmt(e, cx)
         if k == "while":
@@ -1288,6 +1547,38 @@ class FnCompiler:
         pat = tup
         cx.emit(f"let {pat} ← (if {cc} then (do\n{t_txt}) else (do\n{e_txt}))")
 
+    def iflet_stmt(self, e, cx):
+        """`if let Some(x) = o { .. } else { .. }` in statement position, no return inside"""
+        pat, scrut, tb, eb = e[1], e[2], e[3], e[4]
+        c, t = self.expr(scrut, cx)
+        name = self.option_pattern(pat, t)
+        tst = self.enabled(tb)
+        mv = self.assigned_vars(tst, None)
+        est = []
+        if eb is not None:
+            est = [("expr", eb, False, [])] if eb[0] in ("if", "iflet") else self.enabled(eb)
+            for n in self.assigned_vars(est, None):
+                if n not in mv:
+                    mv.append(n)
+        mv = [n for n in mv if n in cx.env]
+        if self.diverges(tst, None) or (est and self.diverges(est, None)):
+            raise Unsupported("diverging if-let branch in statement position")
+        tup = "(" + ", ".join(cx.env[n][0] for n in mv) + ")" if len(mv) != 1 else cx.env[mv[0]][0] if mv else "()"
+        tcx = cx.child()
+        ln = lean_ident(name) if name else "_"
+        if name:
+            tcx.env[name] = (ln, t.a)
+        self.stmts(tst, None, tcx, None, False)
+        ecx = cx.child()
+        self.stmts(est, None, ecx, None, False)
+        t_txt = self.render(tcx.lines + [f"pure {tup}"], 2)
+        e_txt = self.render(ecx.lines + [f"pure {tup}"], 2)
+        m = f"(match {c} with\n| some {ln} => (do\n{t_txt})\n| none => (do\n{e_txt}))"
+        if not mv:
+            cx.emit(m)
+        else:
+            cx.emit(f"let {tup} ← {m}")
+
     def for_stmt(self, e, cx):
         pat, it, body = e[1], e[2], e[3]
         bst = [s for s in body[1] if rsparse.attrs_enabled(s[-1], self.tr.cfg)]
@@ -1328,6 +1619,8 @@ class FnCompiler:
             hi2 = f"({hi} + 1)" if inc else hi
             lst = f"(List.range' {lo} ({hi2} - {lo}))"
             et = rt.a
+        elif uses_iter_adaptor(it):
+            lst, et = self.iter_list(it, cx)
         else:
             base = it
             while base[0] == "method" and base[2] in ("iter", "into_iter", "copied", "cloned"):
@@ -1344,6 +1637,8 @@ class FnCompiler:
             sub.env[names[0]] = (iv, et)
         elif pat[0] == "pwild":
             pass
+        elif pat[0] == "ptuple":
+            iv = self.bind_for_pattern(pat, et, sub.env)
         else:
             raise Unsupported("for pattern")
         tup = "(" + ", ".join(cx.env[n][0] for n in mv) + ")" if len(mv) != 1 else cx.env[mv[0]][0]
@@ -1402,6 +1697,14 @@ def pat_names(p):
 def iter_is_mut(it):
     while it[0] == "method":
         if it[2] == "iter_mut":
+            return True
+        it = it[1]
+    return False
+
+
+def uses_iter_adaptor(it):
+    while it[0] == "method":
+        if it[2] in ("char_indices", "chars", "enumerate"):
             return True
         it = it[1]
     return False
